@@ -98,12 +98,12 @@ TPass ==
     /\ Is("pass") /\ Consume /\ running
     /\ IF pst # <<>> /\ Top(pst).st = "cont"
        THEN \* next pass of the same list: exactly the failed tags; the list never
-            \* grows and the number of passes is bounded by the size of the list
-            \* (the pinned code shrinks it on every pass; an implementation that
-            \* also counts newly positioned elements as progress may repeat a size)
+            \* grows.  (A pass may repeat a size: an element positioned for the first
+            \* time inside a failed container is progress too; the number of passes is
+            \* bounded by what can become known, which the trace does not show - the
+            \* watchdog of C01 judges termination.)
             /\ Ev.pending = Top(pst).rem
             /\ Ev.pending <= Top(pst).pending
-            /\ Top(pst).n < Top(pst).init * Top(pst).init + 1
             /\ pst' = [pst EXCEPT ![Len(pst)] = [st |-> "in", pending |-> Ev.pending, seen |-> 0, failed |-> 0,
                                                   rem |-> 0, n |-> Top(pst).n + 1, init |-> Top(pst).init]]
        ELSE /\ Ev.pending > 0
